@@ -39,7 +39,25 @@ FIELDS = OrderedDict([
                probe=['__absent__'])),
     ('v', dict(type=lambda: Integer(values=[2, 4]), ok=lambda v: v in (2, 4), base=2, probe=[4, 3])),
     ('d', dict(type=lambda: Integer, ok=lambda v: not isinstance(v, list), base=3, probe=[[1, 2], ABSENT])),
+    # a complex argument whose class inherits constrained members: inherited and own members are enforced alike
+    ('x', dict(type=lambda: SubArg, complex=True,
+               ok=lambda v: 'im' in v and len(v.get('ir', [])) <= 2 and 'om' in v and (v['im'] is None or v['im'] >= 0),
+               base=OrderedDict([('im', 1), ('om', 2)]),
+               probe=[OrderedDict([('im', 0), ('ir', [1, 2]), ('om', 2)]), OrderedDict([('om', 2)]),
+                      OrderedDict([('im', 1), ('ir', [1, 2, 3]), ('om', 2)]), OrderedDict([('im', 1)]),
+                      OrderedDict([('im', -1), ('om', 2)])])),
 ])
+
+
+class BaseArg(ComplexModel):
+    __namespace__ = TNS
+    im = Integer(min_occurs=1, ge=0)
+    ir = Integer(max_occurs=2)
+
+
+class SubArg(BaseArg):
+    __namespace__ = TNS
+    om = Integer(min_occurs=1)
 
 
 def build_request(family, args):
@@ -48,6 +66,11 @@ def build_request(family, args):
     if family == 'http':
         parts = []
         for k, v in args.items():
+            if isinstance(v, dict):
+                for k2, v2 in v.items():
+                    for x in (v2 if isinstance(v2, list) else [v2]):
+                        parts.append('%s.%s=%s' % (k, k2, x))
+                continue
             for x in (v if isinstance(v, list) else [v]):
                 parts.append('%s=%s' % (k, x))
         return 'GET', '/check', '&'.join(parts), b'', 'text/plain'
@@ -55,12 +78,19 @@ def build_request(family, args):
         return 'POST', '/', '', json.dumps({'check': args}).encode(), 'application/json'
     if family == 'yaml':
         import yaml
-        return 'POST', '/', '', yaml.safe_dump({'check': dict(args)}).encode(), 'text/yaml'
+        return 'POST', '/', '', yaml.safe_dump({'check': {k: (dict(v) if isinstance(v, dict) else v) for k, v in
+                                                            args.items()}}).encode(), 'text/yaml'
     if family == 'msgpack':
         import msgpack
-        return 'POST', '/', '', msgpack.packb({b'check': {k.encode(): v for k, v in args.items()}}), 'application/x-msgpack'
+        return 'POST', '/', '', msgpack.packb({b'check': {k.encode(): ({k2.encode(): v2 for k2, v2 in v.items()} if isinstance(
+            v, dict) else v) for k, v in args.items()}}), 'application/x-msgpack'
     elts = []
     for k, v in args.items():
+        if isinstance(v, dict):
+            inner = ''.join('<tns:%s>%s</tns:%s>' % (k2, x, k2) for k2, v2 in v.items()
+                            for x in (v2 if isinstance(v2, list) else [v2]))
+            elts.append('<tns:%s>%s</tns:%s>' % (k, inner, k))
+            continue
         for x in (v if isinstance(v, list) else [v]):
             elts.append('<tns:%s>%s</tns:%s>' % (k, x, k))
     body = '<tns:check>%s</tns:check>' % ''.join(elts)
@@ -88,8 +118,8 @@ def _mk(family):
         types = [FIELDS[k]['type']() for k in names]
         calls = []
 
-        def check(ctx, b, u, w, s, e, r, g, o, n, v, d):
-            calls.append((b, u, w, s, e, r, g, o, n, v, d))
+        def check(ctx, b, u, w, s, e, r, g, o, n, v, d, x):
+            calls.append((b, u, w, s, e, r, g, o, n, v, d, x))
             return 1
         check._pyvc_native = True
         Svc = type(ServiceBase)('Svc', (ServiceBase,), {'check': rpc(*types, _returns=Integer)(check)})
@@ -119,8 +149,11 @@ def _mk(family):
             want = dict(args)
             norm = {k: (list(got[k]) if isinstance(got[k], (list, tuple)) else got[k]) for k in names}
             norm['e'] = str(getattr(norm['e'], 'name', norm['e'])) if not isinstance(norm['e'], str) else norm['e']
-            c.check('values_delivered', all(norm[k] == (None if want[k] == ABSENT else want[k]) for k in names if k != 'e'),
-                    detail=(norm, want))
+            c.check('values_delivered', all(norm[k] == (None if want[k] == ABSENT else want[k]) for k in names
+                                            if k not in ('e', 'x')), detail=(norm, want))
+            gx = got['x']
+            c.check('complex_argument_delivered', gx is not None and gx.im == want['x'].get('im') and gx.om == want['x'].get('om')
+                    and list(gx.ir or []) == list(want['x'].get('ir', [])), detail=(repr(gx), want['x']))
         if not expected_ok:
             from spec import faultdoc
             try:
